@@ -271,6 +271,20 @@ class Ctx(object):
                     known_before = set(self.seen)
                     vio = self.minimize(vio, lambda c: self._quiet(fn, c), smaller)
                 self.record(vio)
+            except BaseException as exc:
+                # Hypothesis reports a failure that does not reproduce when the example is re-run (Flaky /
+                # FlakyFailure, an exception group): the code under test depends on call history.  The violation
+                # that was observed is real and is reported as such (unshrunk); anything else is a harness error.
+                import hypothesis.errors as herr
+                if isinstance(exc, getattr(herr, "Flaky", ())) or isinstance(exc, getattr(herr, "FlakyFailure", ())) \
+                        or type(exc).__name__ in ("ExceptionGroup", "BaseExceptionGroup", "FlakyFailure", "Flaky", "FlakyReplay"):
+                    if "v" in last:
+                        vio = last["v"]
+                        vio.detail = "[not reproducible in isolation: outcome depends on earlier calls in the same process] " + vio.detail
+                        self.record(vio)
+                        self.notes.append("flaky failure (history dependent) for kind %s" % vio.kind)
+                        continue
+                raise
         self.notes.append("more than %d distinct violation kinds; search stopped" % rounds)
 
     def export(self):
